@@ -617,16 +617,20 @@ func (s *Session) Get(key string, def interface{}) interface{} {
 
 // GetAndDelete returns a value stored in the session under the given key. If
 // the key is not contained, the default "def" is returned. The key is also
-// deleted from the session.
+// deleted from the session. Like Delete(), this results in a call to
+// SaveSession() of the persistence layer if the key was contained.
 func (s *Session) GetAndDelete(key string, def interface{}) interface{} {
 	s.Lock()
-	defer s.Unlock()
 	value, ok := s.data[key]
-	if ok {
-		delete(s.data, key)
-		return value
+	if !ok {
+		s.Unlock()
+		return def
 	}
-	return def
+	delete(s.data, key)
+	id := s.id
+	s.Unlock()
+	Persistence.SaveSession(id, s)
+	return value
 }
 
 // Delete deletes a key from the session. Note that since the sessions cache is
